@@ -57,5 +57,7 @@ def parse_regexp(text):
     stream = CommonTokenStream(lexer)
     parser = regexpParser(stream)
     tree = parser.expression()
+    if parser.getNumberOfSyntaxErrors() > 0 or stream.LA(1) != Token.EOF:
+        raise RuntimeError('syntax error in regular expression {}'.format(text))
     visitor = regexpVisitor()
     return visitor.visit(tree)
